@@ -33,6 +33,7 @@ func main() {
 	sbias := fs.Int("sbias", 0, "staking op bias")
 	bbias := fs.Int("bbias", 0, "bridge op bias")
 	valstatus := fs.Bool("valstatus", false, "validator jail/unjail environment events")
+	stories := fs.Int("stories", 50, "percent of histories with a scripted dispute story")
 	only := fs.Int("only", 0, "run only this history (1-based)")
 	mintinit := fs.Bool("mintinit", false, "governance starts minting in the bootstrap block")
 	_ = fs.Parse(os.Args[2:])
@@ -43,7 +44,7 @@ func main() {
 	case "hist":
 		err = h.RunHist(*trace, *stats, h.HistDriverOpts{N: *n, Seed: *seed, Proj: *proj, Only: *only,
 			Opts: h.HistOpts{Blocks: *blocks, MaxOpsPerBlk: *maxops, Boundary: *boundary, GovOps: *gov, NoBadValues: *nobad, TimeJumps: *jumps,
-				DisputeBias: *dbias, StakingBias: *sbias, BridgeBias: *bbias, MintInitEarly: *mintinit, ValStatus: *valstatus}})
+				DisputeBias: *dbias, StakingBias: *sbias, BridgeBias: *bbias, MintInitEarly: *mintinit, ValStatus: *valstatus, Stories: *stories}})
 	default:
 		err = fmt.Errorf("unknown driver %q", os.Args[1])
 	}
